@@ -785,6 +785,83 @@ def monitor_reuse(rng, pairs, viols, counts):
             hist = (hist + [[lx, rx]])[-12:]
 
 
+# Documents whose right root introduces a prefix (or rebinds one / binds a second prefix to the same
+# URI) and creates addressed nodes in that namespace.  Used in order on shared objects: what an
+# object or the process remembers of an earlier pair must not show in a later one.
+NS_INTRO = [
+    ('<r><k/></r>', '<r xmlns:p="urn:u1"><k/><p:n a="1"><p:m>t</p:m></p:n></r>'),
+    ('<r><k/></r>', '<r xmlns:q="urn:u1"><k/><q:n a="1"><q:m>t</q:m></q:n></r>'),
+    ('<r><k/></r>', '<r xmlns:p="urn:u2"><k/><p:n b="2"><p:m>u</p:m></p:n></r>'),
+    ('<r><k/></r>', '<r xmlns:p="urn:u1"><k/><p:n a="1"><p:m>t</p:m></p:n></r>'),
+    ('<r xmlns:p="urn:u1"><p:k>x</p:k></r>', '<r xmlns:p="urn:u1"><p:k>y</p:k><p:k2 c="3"/></r>'),
+    ('<r xmlns:p="urn:u2"><p:k>x</p:k></r>', '<r xmlns:p="urn:u2"><p:k>y</p:k><p:k2 c="3"/></r>'),
+    ('<r xmlns:q="urn:u2"><q:k>x</q:k></r>', '<r xmlns:q="urn:u2"><q:k>y</q:k><q:k2 c="3"><q:z/></q:k2></r>'),
+    ('<r xmlns:p="urn:u1"><p:k>x</p:k></r>', '<r xmlns:p="urn:u1"><p:k>y</p:k><p:k2 c="3"/></r>'),
+]
+
+
+def monitor_reuse_objects(rng, pairs, viols, counts):
+    """Pure-Python reuse oracles (independent of the Coq model, so they still search when the tie is
+    broken): ONE Patcher, ONE DiffFormatter, ONE XmlDiffFormatter, ONE XMLFormatter and ONE Differ are
+    used for a whole sequence of documents -- for the Differ also with the SAME lxml objects passed again
+    (diff(l, r); diff(l, r); diff(l2, r) ...) -- and every result must equal that of new objects."""
+    from xmldiff import main, formatting, diff, patch
+    seqs = [list(NS_INTRO), list(reversed(NS_INTRO))]
+    plain = [(a, b) for a, b, _ in pairs]
+    for _ in range(4):
+        seqs.append([rng.choice(plain + NS_INTRO) for _ in range(10)])
+    for seq in seqs:
+        shared_p, shared_df, shared_old = patch.Patcher(), formatting.DiffFormatter(), formatting.XmlDiffFormatter()
+        shared_x = formatting.XMLFormatter()
+        hist = []
+        for lx, rx in seq:
+            hist = (hist + [[lx, rx]])[-12:]
+            s = call(lambda: main.diff_trees(X(lx), X(rx)))
+            if is_exc(s):
+                continue
+            acts = list(s)
+            fresh = call(lambda: etree.tostring(patch.Patcher().patch(list(acts), X(lx))).decode())
+            again = call(lambda: etree.tostring(shared_p.patch(list(acts), X(lx))).decode())
+            counts["patcher_reuse"] += 1
+            if fresh != again and not (infoset_of_text(fresh) is not None and infoset_of_text(fresh) == infoset_of_text(again)
+                                       and pred_patch(lx, struct(acts))):
+                viols.append({"what": "a reused Patcher gives a different result than a new one: %r vs %r" % (again, fresh),
+                              "replay": {"kind": "object-reuse", "object": "Patcher", "history": hist}})
+            for nm, sh_, mk in (("DiffFormatter", shared_df, formatting.DiffFormatter), ("XmlDiffFormatter", shared_old, formatting.XmlDiffFormatter),
+                                ("XMLFormatter", shared_x, formatting.XMLFormatter)):
+                fresh = call(lambda: main.diff_trees(X(lx), X(rx), formatter=mk()))
+                again = call(lambda: main.diff_trees(X(lx), X(rx), formatter=sh_))
+                counts["formatter_reuse"] += 1
+                if fresh != again and not (nm == "XMLFormatter" and infoset_of_text(fresh) is not None and
+                                           infoset_of_text(fresh) == infoset_of_text(again) and pred_script(lx, rx, struct(acts))):
+                    viols.append({"what": "a reused %s gives a different result than a new one: %r vs %r" % (nm, again, fresh),
+                                  "replay": {"kind": "object-reuse", "object": nm, "history": hist}})
+    # one Differ, the same lxml objects handed over again and again
+    docs = sorted({d for p in plain[:14] for d in p})[:10]
+    for opts in ({}, {"fast_match": True}, {"best_match": True}):
+        objs = [X(d) for d in docs]
+        d = diff.Differ(**opts)
+        hist = []
+        for _ in range(40):
+            i, j = rng.randrange(len(docs)), rng.randrange(len(docs))
+            if hist and rng.random() < .5:
+                i, j = (hist[-1][0], hist[-1][1]) if rng.random() < .4 else (i, hist[-1][1])     # same pair again / same right object
+            how = rng.choice(("diff", "match+diff", "diff-partial"))
+            hist = hist + [[i, j, how]]
+            fresh = call(lambda: struct(main.diff_trees(X(docs[i]), X(docs[j]), diff_options=opts)))
+            if how == "match+diff":
+                call(lambda: d.match(objs[i], objs[j]))
+            if how == "diff-partial":      # an earlier generator abandoned half way
+                g = d.diff(objs[i], objs[j])
+                call(lambda: next(g, None))
+            again = call(lambda: struct(list(d.diff(objs[i], objs[j]))))
+            counts["differ_same_objects"] += 1
+            if fresh != again:
+                viols.append({"what": "one Differ fed the same tree objects again gives a different script than a new Differ: %r vs %r" % (again, fresh),
+                              "replay": {"kind": "differ-same-objects", "opts": opts, "docs": docs, "history": hist}})
+                d, hist = diff.Differ(**opts), []
+
+
 ATTR_HEAVY = [
     ('<a k1="1" k2="2" k3="3" k4="4" k5="5" k6="6" k7="7" k8="8"/>',
      '<a k9="1" k2="22" k3="3" kA="4" kB="5" k6="66" kC="7" kD="x" kE="y" kF="8"/>'),
@@ -863,6 +940,23 @@ def monitor_processes(run, rng, corpus, viols, counts):
                 report(run, viols, lx, rx, opts, classify(lx, rx, b, o), "fresh processes, " + name,
                        {"prelude": pre, "mode": "subprocess"})
     counts["subprocess_runs"] = len(variants)
+    # every namespace-introducing pair alone in a fresh process (no history at all) against its result
+    # in the middle of the corpus run
+    idxs = [i for i, c in enumerate(corpus) if (c[0], c[1]) in NS_INTRO]
+    with ThreadPoolExecutor(8) as ex:
+        alone = list(ex.map(lambda i: run_worker({"corpus": [corpus[i]], "prelude": []}, "0"), idxs))
+    for i, res in zip(idxs, alone):
+        lx, rx, opts = corpus[i]
+        counts["subprocess_runs"] += 1
+        if "error" in res:
+            viols.append({"what": "monitor subprocess failed (isolated pair): %s" % res["error"], "replay": {"kind": "worker-error"}})
+            continue
+        counts["subprocess_comparisons"] += 1
+        if res["out"][0] != base["out"][i]:
+            counts["subprocess_differences"] += 1
+            report(run, viols, lx, rx, opts, classify(lx, rx, res["out"][0], base["out"][i]),
+                   "fresh process alone vs after the documents diffed/patched before it in one process",
+                   {"prelude": [[c[0], c[1]] for c in corpus[:i]], "mode": "subprocess"})
 
 
 def known_stream(run, viols, counts):
@@ -1032,7 +1126,7 @@ def main(run):
     counts = {k: 0 for k in ("diff_trees", "differ_api", "patch_tree", "format", "history", "history_differences",
                              "nonroot_stream", "nonroot_stream_differences", "xmlformatter_reuse", "differ_reuse",
                              "subprocess_comparisons", "subprocess_differences", "subprocess_runs", "known_stream",
-                             "known_stream_differences")}
+                             "known_stream_differences", "patcher_reuse", "formatter_reuse", "differ_same_objects")}
     pairs = gen_pairs(rng, 70 if quick else 1500)
     pairs += [(a, b, {}) for a, b in ATTR_HEAVY] + [(HAND_POOL[i], HAND_POOL[j], {}) for i, j in ((6, 7), (7, 6), (6, 9), (9, 6), (6, 8), (4, 5))]
     monitor_mutation(rng, pairs, viols, counts)
@@ -1044,7 +1138,10 @@ def main(run):
     monitor_history(run, rng, nonroot, viols, counts, "nonroot_stream")
     known_stream(run, viols, counts)
     monitor_reuse(rng, pairs[: (50 if quick else 1000)], viols, counts)
-    corpus = [[a, b, o] for a, b, o in (pairs[: (30 if quick else 400)] + pairs[-9:])]
+    monitor_reuse_objects(rng, pairs[: (50 if quick else 600)], viols, counts)
+    # namespace-introducing pairs, in order, in one process: base / adversarial diffs / again
+    monitor_history(run, rng, [(a, b, {}) for a, b in NS_INTRO], viols, counts, "history")
+    corpus = [[a, b, o] for a, b, o in (pairs[: (30 if quick else 400)] + pairs[-9:])] + [[a, b, {}] for a, b in NS_INTRO]
     monitor_processes(run, rng, corpus, viols, counts)
     run.log("monitor (history): %d in-process re-computations after adversarial diffs (%d differed), non-root-namespace stream %d (%d differed), "
             "%d XMLFormatter / %d Differ reuse comparisons; %d subprocess runs, %d comparisons (%d differed); known-finding stream: %d differences"
@@ -1053,8 +1150,11 @@ def main(run):
                counts["subprocess_differences"], counts["known_stream_differences"]))
     run.log("violations found by the monitors: %d" % len(viols))
 
+    run.log("monitor (object reuse, model independent): %d Patcher, %d formatter, %d same-tree-object Differ comparisons"
+            % (counts["patcher_reuse"], counts["formatter_reuse"], counts["differ_same_objects"]))
     nmon = sum(counts[k] for k in ("diff_trees", "differ_api", "patch_tree", "format", "history", "nonroot_stream",
-                                   "xmlformatter_reuse", "differ_reuse", "subprocess_comparisons", "known_stream"))
+                                   "xmlformatter_reuse", "differ_reuse", "subprocess_comparisons", "known_stream",
+                                   "patcher_reuse", "formatter_reuse", "differ_same_objects"))
     nontrivial = len({json.dumps(d, sort_keys=True) for d in descr if d["kind"] == "differ-seq" and
                       any(isinstance(x, list) and x for x in d["impl"])})
     run.coverage.update({
@@ -1097,6 +1197,7 @@ def main(run):
         c2 = {k: 0 for k in counts}
         monitor_mutation(r2, more, out, c2)
         monitor_reuse(r2, more, out, c2)
+        monitor_reuse_objects(r2, more, out, c2)
         return out
 
     viols.sort(key=lambda v: len(json.dumps(v["replay"], default=str)))
@@ -1148,6 +1249,43 @@ def replay(run, path):
         for lx, rx in d["history"]:
             fresh = call(lambda: struct(M.diff_trees(X(lx), X(rx), diff_options=d["opts"])))
             again = call(lambda: struct(list(dd.diff(X(lx), X(rx)))))
+            if fresh != again:
+                bad += 1
+                print("reused differ:", again, " new differ:", fresh)
+        print("reuse dependence reproduced" if bad else "property holds on this input")
+        return 1 if bad else 0
+    if kind == "object-reuse":
+        from xmldiff import patch as P
+        mk = {"Patcher": P.Patcher, "DiffFormatter": formatting.DiffFormatter, "XmlDiffFormatter": formatting.XmlDiffFormatter,
+              "XMLFormatter": formatting.XMLFormatter}[d["object"]]
+        shared, bad = mk(), 0
+        for lx, rx in d["history"]:
+            acts = call(lambda: list(M.diff_trees(X(lx), X(rx))))
+            if is_exc(acts):
+                continue
+            if d["object"] == "Patcher":
+                fresh = call(lambda: etree.tostring(P.Patcher().patch(list(acts), X(lx))).decode())
+                again = call(lambda: etree.tostring(shared.patch(list(acts), X(lx))).decode())
+            else:
+                fresh = call(lambda: M.diff_trees(X(lx), X(rx), formatter=mk()))
+                again = call(lambda: M.diff_trees(X(lx), X(rx), formatter=shared))
+            if fresh != again:
+                bad += 1
+                print("reused %s:" % d["object"], again, "\nnew object:", fresh)
+        print("reuse dependence reproduced" if bad else "property holds on this input")
+        return 1 if bad else 0
+    if kind == "differ-same-objects":
+        docs = d["docs"]
+        objs = [X(x) for x in docs]
+        dd, bad = diff.Differ(**d["opts"]), 0
+        for i, j, how in d["history"]:
+            fresh = call(lambda: struct(M.diff_trees(X(docs[i]), X(docs[j]), diff_options=d["opts"])))
+            if how == "match+diff":
+                call(lambda: dd.match(objs[i], objs[j]))
+            if how == "diff-partial":
+                g = dd.diff(objs[i], objs[j])
+                call(lambda: next(g, None))
+            again = call(lambda: struct(list(dd.diff(objs[i], objs[j]))))
             if fresh != again:
                 bad += 1
                 print("reused differ:", again, " new differ:", fresh)
